@@ -50,8 +50,22 @@ def reduce_paramsets_requirements(paramsets_requirements, paramsets_user_configs
             # if v is a tuple, it's not user-configured, so convert to list
             if v == 'undefined':
                 continue
+            # a default of None means that the modifier (e.g. lumi) has no
+            # sensible default and the value must be configured by the user
+            if v is None:
+                raise exceptions.InvalidModel(
+                    f"No value for '{k}' was configured for {paramset_name}, but it has no default. Provide it in the parameter configuration."
+                )
             if isinstance(v, tuple):
                 v = list(v)
+            elif (
+                isinstance(v, list)
+                and default_v is None
+                and len(v) != combined_paramset['n_parameters']
+            ):
+                raise exceptions.InvalidModel(
+                    f"Incorrect number of values ({len(v)}) for {k} were configured by you, expected {combined_paramset['n_parameters']}."
+                )
             # this implies user-configured, so check that it has the right number of elements
             elif isinstance(v, list) and default_v and len(v) != len(default_v):
                 raise exceptions.InvalidModel(
